@@ -500,7 +500,7 @@ def _check_table_slope(case):
         if case["target"] == "LAMMPS":
             LAMMPS_PairTabulation(pots, cutoff, nr).write(fp)
             blk = parsers.lammps_table(fp.getvalue())[0]
-            rs = [r for _, r, _, _ in blk["rows"]]
+            rs = [(k + 1) * (cutoff / float(nr - 1)) for k in range(len(blk["rows"]))]
             E = [e for _, _, e, _ in blk["rows"]]
             F = [f for _, _, _, f in blk["rows"]]
             prec = lambda x: 1.0000001e-8  # noqa: E731
@@ -508,7 +508,7 @@ def _check_table_slope(case):
             n4 = (nr - 1)
             DLPoly_PairTabulation(pots, cutoff, n4).write(fp)
             t = parsers.dlpoly_table(fp.getvalue())
-            rs = [(k + 1) * t["delpot"] for k in range(n4)]
+            rs = [(k + 1) * (cutoff / float(n4 - 4)) for k in range(n4)]
             E = t["blocks"][0]["energies"]
             F = [g / r for g, r in zip(t["blocks"][0]["forces"], rs)]
             prec = lambda x: 1.0000001e-7 * abs(x)  # noqa: E731
@@ -517,7 +517,9 @@ def _check_table_slope(case):
     except Exception as e:
         return {"v": [("table_slope:exception:%s@%s" % (type(e).__name__, libroute.innermost_atsim_frame(e)), "%r\n%s" % (
             e, render.potdef_text(pd)))], "cls": cls, "nt": False}
-    dr = rs[1] - rs[0]
+    # the spacing comes from the grid definition, not from the printed separations (8 decimals: the difference
+    # of two printed values is only good to ~1e-6 relative, which would dominate the comparison)
+    dr = cutoff / float(nr - 1) if case["target"] == "LAMMPS" else cutoff / float((nr - 1) - 4)
     checked = 0
     for k in range(2, len(rs) - 2, 7):
         r = rs[k]
